@@ -406,7 +406,7 @@ def run(tier, seed):
     wide = QUICK_WIDE if quick else sorted(set(list(range(257, 4097)) + QUICK_WIDE))
     for n in wide:
         tasks.append(("width", (n, [0, 7] if quick else [0], 1)))
-    for name in T.SHIPPED:
+    for name in T.SHIPPED + T.WIDE:
         tasks.append(("shipped", (name, seed)))
     for name in (["T11", "T23", "T29", "T263", "T1543", "E109"] if quick else C.SMALL_INT_ALL + ["E37", "E109", "E229"]):
         tasks.append(("toy", (name,)))
